@@ -402,6 +402,11 @@ func TestSizes(t *testing.T) {
 				}
 				c.Callers = [][]wsim.Call{{{Msgs: []wsim.Msg{proto}}}}
 				c.SettleMs = c.BatchTimeoutMs + 3000
+				if rapid.Bool().Draw(t, "subMillisecond") {
+					// a BatchTimeout below one millisecond is a BatchTimeout too
+					c.ViaNewWriter = rapid.Bool().Draw(t, "subMsViaNewWriter")
+					c.BatchTimeoutMs, c.BatchTimeoutUs = 1, rapid.SampledFrom([]int{1, 50, 500, 999}).Draw(t, "batchTimeoutUs")
+				}
 			} else {
 				c.Async = false
 				c.ViaNewWriter = rapid.IntRange(0, 3).Draw(t, "viaNewWriter") == 0
